@@ -105,6 +105,9 @@ def enc_element(kind, shape, v):
             body = rd + bytes(10) + E.u32(v[1]) + label3(v[2])
         elif shape == 4:
             body = rd + bytes([4]) + E.u32(v[1]) + E.u32(9) + bytes([0]) + bytes([32, 192, 168, 0, 1])
+        elif shape in (6, 11):
+            # a route type the decoder does not know (6 = SMET, RFC 9251): skipped, whatever stands next to it
+            body = rd + E.u32(v[1]) + bytes([32, 10, 0, 0, 1])
         else:
             raise AssertionError(shape)
         return bytes([shape, len(body)]) + body
@@ -280,9 +283,9 @@ def obligations(tier, seed):
         'extcommunity': ['rt0', 'rt1', 'color', 'unknown'],
         'clusterlist': [None],
         'aspath': [(1, 1, False), (2, 2, False), (3, 0, False), (4, 3, False)],
-        'ls-tlv': [(1028, 4), (1095, 3), (1092, 4), (1026, 5), (9999, 2), (1034, 12), (1029, 16)],
+        'ls-tlv': [(1028, 4), (1095, 3), (1092, 4), (1026, 5), (9999, 2), (1034, 12), (1029, 16), (9999, 0), (1096, 0)],
         'prefixsid': [(1, 7), (3, 8), (9, 2), (5, 0)],
-        'evpn': [1, 3, 4],
+        'evpn': [1, 3, 4, 6],
         'capability': ['mp', 'addpath', 'addpath2', 'rr', 'as4', 'unknown'],
         'flowspec': [('prefix', 24), ('prefix', 0), ('prefix', 9), ('op', 3), ('op', 5)],
         'prefix6': [{'plen': pl, 'addr': ad} for pl in ([0, 1, 8, 9, 60, 64, 127, 128] if quick else
